@@ -791,6 +791,66 @@ PROPS["C10"] = dict(
                  "what the model cannot exhibit: C++ object lifetime, alignment, and reads outside the view that do not influence a value; those are covered only by the AddressSanitizer + UBSan build of the same driver (support, not proof)"],
 )
 
+
+def c14_statics(pid, P, tier, seed, log):
+    """(a) regenerate the table of statics from clang's AST of /repo/include/manif and re-check the Coq obligation gen_ok on it;
+    (b) support runs: thread stress harness, plain and under ThreadSanitizer, fresh process per launch"""
+    import statics_scan, subprocess, tempfile
+    raw = []; cov = {}
+    os.makedirs(vlib.BUILD, exist_ok=True)
+    wd = tempfile.mkdtemp(prefix="statics_", dir=vlib.BUILD)
+    try:
+        rows = statics_scan.scan(wd)
+    except Exception as e:
+        raw.append(("proof", dict(file="StaticsGen.v"), "the statics scan failed: %s" % str(e)[:300], dict(kind="proof", theorem="gen_ok (regenerated table)", detail=str(e)[:2000]), False))
+        rows = None
+    if rows is not None:
+        gen = os.path.join(wd, "StaticsGen.v"); open(gen, "w").write(statics_scan.coq_table(rows))
+        rc, out = vlib.sh(["coqc", "-Q", vlib.COQ, "Manif", gen], timeout=600, cwd=wd)
+        bad = [r for r in rows if not (r["const"] or r["constexpr"]) or r["kind"] in ("mutable_field", "const_cast")]
+        cov.update(statics_declarations=len(rows), statics_local=sum(1 for r in rows if r["kind"] == "local_static"), statics_not_const=len(bad), statics_obligation="gen_ok: %s" % ("Qed" if rc == 0 else "FAILED"))
+        if rc != 0 or bad:
+            for r in (bad or [dict(kind="?", name="?", file="?", line=0, type=out[-300:])])[:5]:
+                raw.append(("pred", dict(group="statics", pred="gen_ok", pair="%s:%s" % (r["file"], r["name"]), site=r["file"], scalar="-"),
+                            "shared mutable state reachable from the const API: %s `%s` (%s) at %s:%s is not const" % (r["kind"], r["name"], r.get("type", ""), r["file"], r["line"]),
+                            dict(kind="statics", obligation="gen_ok (all_const_after_init statics = true)", declaration=r, coqc=out[-1500:]), True))
+    shutil_rm(wd)
+    # (b) stress runs
+    nthreads = 8; launches = (10, 4) if tier != "thorough" else (200, 40)
+    specs = [dict(name="threads_plain", source="threads.cpp", defines=[], flags=("-std=c++11", "-O2", "-pthread"), libs=()),
+             dict(name="threads_tsan", source="threads.cpp", defines=[], flags=("-std=c++11", "-O1", "-g", "-fsanitize=thread"), libs=(), compiler="clang++")]
+    bins = vlib.build_many(specs); nl = 0
+    for (name, nlaunch) in (("threads_plain", launches[0]), ("threads_tsan", launches[1])):
+        path, lg = bins[name]
+        if path is None:
+            raw.append(("build", dict(binary=name), "thread harness %s does not build: %s" % (name, lg[-400:]), dict(binary=name, log=lg[-3000:]), False)); continue
+        for k in range(nlaunch):
+            p = subprocess.run([path, str(nthreads), "2"], stdout=subprocess.PIPE, stderr=subprocess.PIPE, text=True, timeout=600); nl += 1
+            if p.returncode != 0:
+                what = "ThreadSanitizer reported a data race" if p.returncode == 66 or "ThreadSanitizer" in p.stderr else "a thread observed a value different from the single-thread result"
+                raw.append(("pred", dict(group="threads", pred=name, pair=what, scalar="d"), "%s (launch %d of %s, %d threads): %s" % (what, k, name, nthreads, (p.stdout[-200:] + p.stderr[-600:]).replace("\n", " ")),
+                            dict(kind="threads", binary=name, launch=k, threads=nthreads, stdout=p.stdout[-2000:], stderr=p.stderr[-4000:]), True))
+                break
+    cov.update(thread_launches=nl, threads_per_launch=nthreads)
+    log("statics: %s declarations (%s function-local), obligation %s; thread runs: %d launches, %d failures" % (cov.get("statics_declarations"), cov.get("statics_local"), cov.get("statics_obligation"), nl, len(raw)))
+    return raw, cov
+
+def shutil_rm(d):
+    import shutil
+    shutil.rmtree(d, ignore_errors=True)
+
+PROPS["C14"] = dict(
+    vfiles=["Properties_C14.v"], level="proof",
+    groups=BASE_GROUPS + ["B[R1,SO3,SE2]"],
+    corr_ops=["Identity", "Generator", "InnerWeights", "AliasId"],
+    preds=[],
+    extra=[c14_statics],
+    n=dict(quick=(6, 0), thorough=(40, 0)),
+    assumptions=["C++11 [stmt.dcl]: the initialisation of a function-local static is performed exactly once and is atomic with respect to other threads reaching the declaration; this is the atomicity of `use` in the model (an assumption about the language, not about manif)",
+                 "the table of statics is regenerated on every run from clang's AST of a translation unit including all of manif (tools/statics_scan.py: variables with static storage duration, mutable fields, const_casts) and the Coq obligation gen_ok is re-checked on it; the script is trusted to report what clang says",
+                 "the values of the static helpers (Identity, Zero, Generator, InnerWeights) are tied to the model by the exact correspondence; data races at the memory-model level and anything inside Eigen are outside the model: covered by the ThreadSanitizer and plain stress runs (support, not proof)"],
+)
+
 # ------------------------------------------------------------------ generic engine
 def mkgen(pid, seed, salt=0):
     return G((seed * 1000003 + zlib.crc32(pid.encode()) + salt) & 0x7fffffff)
